@@ -9,6 +9,7 @@
 
    Executable definitions only. *)
 From Coq Require Import List NArith ZArith Bool.
+From Common Require Outcome.
 From C01 Require Import Str Model.
 Import ListNotations.
 Local Open Scope N_scope.
@@ -187,4 +188,35 @@ Definition M_name_table_ascii (apple ms : list (N * str)) (f : font) (mday cday 
       let '(mac, win) := write_name_tables nt in
       Some (M_name_encode (fun s => s) utf16_ascii apple ms 1 mac win)
     else None
+  end.
+
+(* ------------------------------------- values makeOS2 derives (write.go:200-232) *)
+
+(* besides the font record Write reads the code range of the best cmap
+   subtable and the font bounding box; the advance widths are Font.Widths() *)
+Definition wrap_i16 (z : Z) : Z :=
+  let m := (z mod 65536)%Z in if (m <? 32768)%Z then m else (m - 65536)%Z.
+
+(* arithmetic mean of the positive widths, rounded *)
+Definition M_avg_width (ws : list Z) : Z :=
+  let pos := filter (fun w => (0 <? w)%Z) ws in
+  let count := Z.of_nat (length pos) in
+  let sum := fold_left Z.add pos 0%Z in
+  if (0 <? count)%Z then ((sum + count / 2) / count)%Z else 0%Z.
+
+(* uint16(c), saturated at 0xFFFF for code points beyond the BMP *)
+Definition char_index (c : Z) : Z := if (65535 <? c)%Z then 65535%Z else (c mod 65536)%Z.
+
+Record os2x := mkOs2x { x_avg : Z; x_first : Z; x_last : Z; x_winasc : Z; x_windesc : Z }.
+
+Definition M_os2_derived (ws : list Z) (range : option (Z * Z)) (lly ury : Z) : os2x :=
+  mkOs2x (wrap_i16 (M_avg_width ws))
+         (match range with Some (lo, _) => char_index lo | None => 0%Z end)
+         (match range with Some (_, hi) => char_index hi | None => 0%Z end)
+         ury (wrap_i16 (- lly)).
+
+Definition M_os2_derived_of (f : font) (range : option (Z * Z)) (lly ury : Z) : option os2x :=
+  match write_widths (f_outl f) with
+  | Common.Outcome.Ok hw => Some (M_os2_derived (snd hw) range lly ury)
+  | _ => None
   end.
